@@ -11,6 +11,7 @@ import threading
 import pykka
 
 import c09_impl as I
+from mopidy import backend as mopidy_backend
 
 
 def _script(owner, key, args, kwargs):
@@ -138,6 +139,114 @@ class ScriptedMixer(pykka.ThreadingActor):
 
     def sync(self):
         return True
+
+
+# ---------------------------------------------------------------------------------------
+# backends as REAL subclasses of mopidy.backend.Backend: has_library / has_library_browse /
+# has_playback / has_playlists are the inherited methods (nothing mocked); the provider subset
+# is expressed the way an extension does it, by which provider attributes are set.
+
+
+class RealLib(Lib, mopidy_backend.LibraryProvider):
+    def __init__(self, owner, browsable):
+        mopidy_backend.LibraryProvider.__init__(self, backend=owner)
+        Lib.__init__(self, owner)
+        self._browsable = browsable
+
+    @property
+    def root_directory(self):
+        o = self._o
+        if not self._browsable:
+            return None
+        if not o.started:  # Backend.has_library_browse() at start-up: not a routed request
+            return I.render_resp(o.answers["root_directory"], 0)
+        return _script(o, "root_directory", (), {})
+
+
+class RealPl(Pl, mopidy_backend.PlaylistsProvider):
+    def __init__(self, owner):
+        mopidy_backend.PlaylistsProvider.__init__(self, backend=owner)
+        Pl.__init__(self, owner)
+
+
+@pykka.traversable
+class SomePlayback:
+    """Stands for a PlaybackProvider: only its presence matters to routing."""
+
+
+class InheritedBackend(pykka.ThreadingActor, mopidy_backend.Backend):
+    def __init__(self, idx, spec, log, lock, salt, returned):
+        super().__init__()
+        self.idx, self.spec, self.log, self.lock, self.salt = idx, spec, log, lock, salt
+        self.answers = spec["answers"]
+        self.returned = returned
+        self.ncalls = 0
+        self.started = False
+        self.uri_schemes = list(spec["schemes"])
+        self.library = RealLib(self, spec["browse"]) if spec["lib"] else None
+        self.playback = SomePlayback() if spec["playback"] else None
+        self.playlists = RealPl(self) if spec["playlists"] else None
+
+    def mark_started(self):
+        self.started = True
+        return True
+
+    def sync(self):
+        return True
+
+
+def real_class_case_ok(case):
+    """The populations expressible by provider presence alone."""
+    for b in case["backends"]:
+        if not b.get("info_ok", True) or (b["browse"] and not b["lib"]):
+            return False
+        r = b["answers"].get("root_directory")
+        if b["browse"] and not (r and r[0] == "val" and r[1] == "ref"):
+            return False
+    return True
+
+
+def run_case_real(case, salt=0):
+    """run_case with every backend a real mopidy.backend.Backend subclass actor behind a real proxy."""
+    refs = []
+    lock = threading.Lock()
+
+    def make(case, log, salt):
+        proxies, returned_lists = [], []
+        for i, spec in enumerate(case["backends"]):
+            ret = []
+            ref = InheritedBackend.start(i, spec, log, lock, salt + 7 * i, ret)
+            refs.append(ref)
+            proxies.append(ref.proxy())
+            returned_lists.append(ret)
+        mixer = None
+        if case.get("mixer") is not None:
+            ret = []
+            ref = ScriptedMixer.start(case["mixer"], log, lock, salt, ret)
+            refs.append(ref)
+            mixer = ref.proxy()
+            returned_lists.append(ret)
+        return proxies, mixer, returned_lists
+
+    def settle():
+        for ref in refs:
+            ref.proxy().sync().get(timeout=5)
+
+    def after_startup():
+        for ref in refs:
+            if ref.actor_class is InheritedBackend:
+                ref.proxy().mark_started().get(timeout=5)
+
+    make.settle = settle
+    make.after_startup = after_startup
+    try:
+        return I.run_case(case, salt, make=make)
+    finally:
+        for ref in refs:
+            try:
+                ref.stop(block=True, timeout=5)
+            except Exception:  # noqa: BLE001
+                pass
 
 
 def run_case_pykka(case, salt=0):
